@@ -73,5 +73,5 @@ Definition premises (c : case) : bool :=
   match c with
   | CaseTable _ _ => true
   | CaseTS s emitted pool runs _ _ =>
-    wf_tsb s && forallb (fun r => let d := run_descr emitted pool r in wf_descrb d && order_okb (r_order r) d) runs
+    wf_tsb s && forallb (fun r => let d := run_descr emitted pool r in wf_descrb d && named_descrb d && order_okb (r_order r) d) runs
   end.
